@@ -111,13 +111,22 @@ func (c *containerServer) handleDelete(delete *deleteCmd) error {
 }
 
 func (c *containerServer) handleReset() error {
+	// clean every tmpfs mount even if one of them cannot be emptied completely,
+	// otherwise the mounts after the failing one keep the files of the last run
+	var (
+		firstTarget string
+		firstErr    error
+	)
 	for _, m := range c.Mounts {
 		if !m.IsTmpFs() {
 			continue
 		}
-		if err := removeContents(filepath.Join("/", m.Target)); err != nil {
-			return c.sendErrorReply("reset: %v %v", m.Target, err)
+		if err := removeContents(filepath.Join("/", m.Target)); err != nil && firstErr == nil {
+			firstTarget, firstErr = m.Target, err
 		}
+	}
+	if firstErr != nil {
+		return c.sendErrorReply("reset: %v %v", firstTarget, firstErr)
 	}
 	return c.sendReply(reply{}, unixsocket.Msg{})
 }
